@@ -184,7 +184,10 @@ class ExposeSensor(Device):
 
     async def _cooldown_send(self) -> None:
         """Send value after cooldown if it differs from last processed value."""
-        if self.sensor_value.last_payload == self._payload_after_cooldown:
+        if (
+            self._payload_after_cooldown is None
+            or self.sensor_value.last_payload == self._payload_after_cooldown
+        ):
             # cancel cooldown task to break internal loop
             self._cooldown_task.cancel()  # type: ignore[union-attr]
             return
